@@ -60,7 +60,7 @@ claimed.update({
    text=("Bounded symbolic model checking of one real validator through a complete fault-free round: the harness plays the N-1 honest peers and the executor forks on every choice of the next message, so EVERY delivery order is explored (N=4: all 720 orders per role; N=3 with and without anti-MEV; N=1,2), including responses/pre-commits/commits before the proposal, up to two messages delivered before the height is entered (future-message cache, then Reset) and a duplicated message, each order with all contents (height, tip, timestamps, nonce, transaction, clock) symbolic. For every order the solver proves: block handed over exactly once, in view 0, equal to the proposal; no ChangeView/RecoveryRequest; own messages at most once; no panic. The multi-node statement follows because in a fault-free round each validator's emissions depend only on what it received."),
    design_ref="DESIGN.md §6 C08", technique="bounded symbolic execution of go/ssa (all delivery orders by forking, symbolic contents) + SMT", note=TB + " Anti-MEV at N=4 and N>=5 are outside the bound; several consecutive rounds are covered by the inductive step checks (C05, C10), not by this run."),
  "C17": dict(category="model_checking",
-   text=("PARTIAL by design. Solver-decided: the simulation's REAL event loop (simNode.Run with its select, ProcessBlock, CurrentHeight) is executed symbolically for every sequence of select outcomes up to 5 iterations (8 thorough) against the library's CONTRACT -- the four library calls are redirected to summaries stating exactly what the step checks C02/C05 prove on the real library (Start/Reset: height = ledger+1, undecided; an event may hand one block of that height to ProcessBlock, after which the instance ignores everything until Reset). Proved: no event ever reaches a decided instance that was not re-initialised (otherwise the chain stops there), the instance always works on the height after the application's tip, the ledger grows by one per decided round. A counterexample is replayed by running the real binary (4 validators, 13 s). Not decided: goroutine schedules of the multi-node program, pacing, agreement between nodes, and the gob/SHA-256/ECDSA reference code behind internal/consensus (not encodable)."),
+   text=("PARTIAL by design. Solver-decided: the simulation's REAL event loop (simNode.Run with its select, ProcessBlock, CurrentHeight) is executed symbolically for every sequence of select outcomes up to 5 iterations (6 thorough) against the library's CONTRACT -- the four library calls are redirected to summaries stating exactly what the step checks C02/C05 prove on the real library (Start/Reset: height = ledger+1, undecided; an event may hand one block of that height to ProcessBlock, after which the instance ignores everything until Reset). Proved: no event ever reaches a decided instance that was not re-initialised (otherwise the chain stops there), the instance always works on the height after the application's tip, the ledger grows by one per decided round. A counterexample is replayed by running the real binary (4 validators, 13 s). Not decided: goroutine schedules of the multi-node program, pacing, agreement between nodes, and the gob/SHA-256/ECDSA reference code behind internal/consensus (not encodable)."),
    design_ref="DESIGN.md §6 C17", technique="symbolic execution of go/ssa (real event loop, library replaced by its solver-checked contract) + SMT; replay on the real binary", note=TB + " The summaries are part of the claim: they are justified by C02.O3, C05.O1-O3, which are checked on the library code."),
 })
 
